@@ -1350,7 +1350,10 @@ B('bat-batch-sorted-in-place', ['C10'], ['C10-R4'],
 B('bat-flush-overwrites-an-option', ['C10'], ['C10-R5'],
   (A, "    async def _processing_loop(self) -> None:\n", "    async def flush(self) -> None:\n        saved, self.batch_timeout = self.batch_timeout, 0\n        try:\n            await aio.sleep(0)\n        finally:\n            self.batch_timeout = saved\n\n    async def _processing_loop(self) -> None:\n"))
 B('bat-dispatcher-cancels-a-batch', ['C09'], ['C09-R7'],
-  (A, "    async def _processing_loop(self) -> None:\n", "    def _abandon(self, task: Any) -> None:\n        task.cancel()\n\n    async def _processing_loop(self) -> None:\n"))
+  (A, "            self._daemon_task(  # noqa\n                self._process_batch(tasks),\n                name=\"async-bg-batcher-process-batch\",\n            )\n",
+      "            batch = self._daemon_task(  # noqa\n                self._process_batch(tasks),\n                name=\"async-bg-batcher-process-batch\",\n            )\n            for _, _, fut in tasks:\n                fut.add_done_callback(lambda _f: batch.cancel() if all(t[2].cancelled() for t in tasks) else None)\n"))
+T('bat-close-cancels-the-dispatcher', ['C09', 'C04'],
+  (A, "    async def _processing_loop(self) -> None:\n", "    def close(self) -> None:\n        \"\"\"Stop batching: pending callers are on their own.\"\"\"\n        self._closing = True\n        for t in aio.all_tasks(self._loop):\n            if t.get_name().startswith('async-bg-batcher'):\n                t.cancel()\n\n    async def _processing_loop(self) -> None:\n"))
 B('bat-dispatcher-evicts-by-key', ['C09'], ['C09-R7'],
   (A, "    async def _processing_loop(self) -> None:\n", "    def _forget(self, key: str) -> None:\n        self._retention_cache.pop(key, None)\n\n    async def _processing_loop(self) -> None:\n"))
 
